@@ -1195,6 +1195,7 @@ def selftest_determinism(n_runs):
         ("sign-sim", "faults", N, e, n_runs), ("sign-sim", "plain", A, e, n_runs),
         ("purity-hist", "default", R, e, n_runs), ("purity-hist", "default", A, e, n_runs // 2),
         ("purity-shuttle", "default", R + ["shuttle"], e, n_runs // 4),
+        ("purity-lib", "default", R + ["clilib-ring"], e, n_runs),
         ("replica-sim", "three:1:1", R, e, n_runs), ("replica-sim", "two:1:1", R, e, n_runs),
     ]
     bad = 0
